@@ -680,6 +680,15 @@ def check_keep_override(ctx):
                 continue
             eq = [c for c in p.conds[:e.nconds] if c.kind == 'test'
                   and is_equality(c.expr)]
+            # the comparison of the two rules themselves decides, not a
+            # later comparison of some of their attributes
+            whole = [c for c in eq if not any(
+                isinstance(s_, ast.Attribute) or (
+                    isinstance(s_, ast.Call) and U(s_.func) in ('str',
+                                                                'repr'))
+                for s_ in (c.expr.left, c.expr.comparators[0]))]
+            if whole:
+                eq = whole
             if not eq:
                 bad = bad or (e, 'the formatter is called without comparing '
                               'the file rule with the default')
